@@ -15,7 +15,7 @@ RULE = ("each case runs a structure (repository proteins, cut-outs, chimeras; wi
         "Non-trivial: >= 20 hydrogens added and >= 1 regular residue with a side-chain complement "
         "claim; distinct = distinct (structure digest, pose, options).")
 ASSUMPTIONS = ["the regular-geometry precondition is decided by the harness from the perceived bonds",
-               "labels omit insertion codes, so inputs with insertion-code twins are not used for the warning clause"]
+               "labels omit insertion codes, so inputs with insertion-code twins are not used for the warning clause (their hydrogen counts are judged)"]
 TIMEOUT = {"quick": 2400, "thorough": 14400}
 
 
@@ -152,13 +152,15 @@ def run_case(case, tier):
             conf = run.rec["confs"][name]
             protonate_mon.check_hydrogens_boundary(conf, viol, counts)
             nh += len(conf["hydrogens"])
-            if not twins:
-                before = counts.get("sidechain_hydrogen_claims", 0)
-                # warnings carry no conformation name: the warning clause is judged on
-                # single-conformation inputs only
-                warns = run.rec["warnings"] if len(run.rec["names"]) == 1 else []
-                protonate_mon.check_completeness(conf, warns, viol, counts, classes)
-                nclaims += counts.get("sidechain_hydrogen_claims", 0) - before
+            before = counts.get("sidechain_hydrogen_claims", 0)
+            # warnings carry no conformation name and no insertion code: the warning clause is
+            # judged on single-conformation inputs without insertion-code twins only; the
+            # hydrogen counts (per atom, no labels involved) are judged always
+            warns = run.rec["warnings"] if len(run.rec["names"]) == 1 and not twins else []
+            protonate_mon.check_completeness(conf, warns, viol, counts, classes)
+            nclaims += counts.get("sidechain_hydrogen_claims", 0) - before
+            if twins:
+                classes.append("insertion-code-twins-counted")
     # keep-protons round trip: the program's own hydrogens (all, or a random part of them) are
     # supplied with -k; regular residues must end up with exactly their complement
     if not opts and len(run0.rec["names"]) == 1 and not twins and rng.random() < 0.5:
